@@ -19,7 +19,7 @@ import (
 )
 
 func TestMain(m *testing.M) {
-	vstat.Rule("Handler script per attempt: status from {implicit,200,201,204,304,400,404,500,502,503,504}, 0-4 headers (plus a per-attempt marker header), body as 0-5 writes of 0-4 KiB (incl. no write at all, zero-length writes), with or without an explicit true Content-Length. Retry option absent or an expression from the grammar E := E && E | E || E | (E) | Attempts() op INT | ResponseCode() op INT | IsNetworkError() | RequestMethod() ==|!= \"M\" with minimal parentheses. In-process into a recording writer, and a share over a real server/client. Oracle: independent evaluator (Go precedence, implicit status counts as 200); invocations = smallest k with not E(k,status_k,method), capped at 11 (1 without expression); the client record is exactly one WriteHeader with the final attempt's status (implicit => 200), exactly its header multiset and body bytes (empty stays empty), and no header or byte of a discarded attempt. Non-trivial: expression with >= 1 &&/|| and >= 2 invocations, or implicit status, or empty body without 'Content-Length: 0'.")
+	vstat.Rule("Handler script per attempt: status from {implicit,200,201,204,304,400,404,500,502,503,504}, 0-4 headers (plus a per-attempt marker header), body as 0-5 writes of 0-4 KiB (incl. no write at all, zero-length writes), with or without an explicit true Content-Length. Retry option absent or an expression from the grammar E := E && E | E || E | (E) | Attempts() op INT | ResponseCode() op INT | IsNetworkError() | RequestMethod() ==|!= \"M\" with minimal parentheses. In-process into a recording writer, and a share over a real server/client. Oracle: independent evaluator (Go precedence, implicit status counts as 200); invocations = smallest k with not E(k,status_k,method), capped at 11 (1 without expression); the client record is exactly one WriteHeader with the final attempt's status (implicit => 200), exactly its header multiset and body bytes (empty stays empty), and no header or byte of a discarded attempt. Non-trivial: expression with >= 1 &&/|| and >= 2 invocations, or implicit status, or empty body without 'Content-Length: 0'. Later additions: MaxResponseBodyBytes above everything the scripts write, with 0-3 over-limit exchanges sent through the same Buffer instance before the case proper.")
 	vstat.Main(m.Run)
 }
 
